@@ -327,3 +327,38 @@ fn diff_cli(a: &CliObs, b: &CliObs) -> String {
     }
     format!("session events differ: {:?} vs {:?}", a.2, b.2)
 }
+
+
+// ---------------------------------------------------------------------------------------------
+// C20 over the histories of C10 and the chunked streams of C05/C06: the same script at the lowest
+// level, at the highest and at the level the case carries must give the same transcript, results,
+// completion instants and outer-loop events (static levels: no command is added, so the schedule
+// is the same down to tokio's tie-breaks)
+
+pub fn check_c20_history(case: &CliCase) -> CaseResult {
+    let mut ok = CaseOk::new();
+    let mut plain = case.clone();
+    plain.cfg.decode = Decode::NOTHING;
+    let base_run = run_client(&plain);
+    let base = observe_cli(&base_run);
+    for level in [Decode::MAX, case.cfg.decode] {
+        let mut c = case.clone();
+        c.cfg.decode = level;
+        let obs = observe_cli(&run_client(&c));
+        if obs != base {
+            return Err(format!(
+                "a C10 history at decode level {:?} behaves differently from level nothing: {}",
+                level,
+                diff_cli(&base, &obs)
+            ));
+        }
+    }
+    if base_run.ledger.completions.len() >= 3 {
+        ok.label("completions>=3");
+    }
+    if base_run.peers.len() >= 2 {
+        ok.label("reconnected");
+    }
+    ok.nontrivial = base_run.ledger.completions.len() >= 3 && base_run.peers.len() >= 2;
+    Ok(ok)
+}
